@@ -10,7 +10,11 @@ META = {
             "order, losses, membership changes, injected foreign requests): one purge sends at most one request per peer and never to "
             "itself / inactive / foreign members; k purges send at most k x (N-1) requests; a delivery never sends (requests in flight "
             "only shrink); if no request of a purge is in flight or lost, every peer that was active when the purge read the table "
-            "has discarded that cache because of it; protocol requests always carry hop count 1. The per-node functions are tied to "
+            "has discarded that cache because of it; protocol requests always carry hop count 1; the 5 s limit is per peer "
+            "(SendCacheFlush builds its own http.Client{Timeout} per call): for EVERY assignment of behaviours to the peers (answer, error "
+            "status, hang-up, dead port, answer later than the timeout) the requests issued are the same and every active peer whose "
+            "endpoint receives requests at all receives exactly one (C29_send_outcomes_isolated, C29_slow_peer_isolated), and the "
+            "broadcast goroutine is busy for at most 5 s x peers (C29_broadcast_time_bounded). The per-node functions are tied to "
             "the code by a differential run of ONE real node in-process (cluster.Initialize, then caches.Purge/PurgeLocal/PurgeAll -> "
             "OnPurge -> BroadcastCacheFlush over a real SQLite cluster table) against recording HTTP peers, and of a real "
             "router.Router (flush route as declared in commands/server.go) + the real FlushCacheHandler on every recorded request "
@@ -27,8 +31,10 @@ META = {
             "ClusterName is k'; each table row's name is the ClusterName of the process with that node id (Consistent: rows are only "
             "written by upsertMember from the node's own configuration); caches are active on every server (caches.Active(false) has "
             "no production call site - checked by a source obligation each run); a request to an unreachable peer is a 'drop' step; "
-            "the 5 s client timeout and the health checker are not modelled (they only change table states / drop requests, which the "
-            "step relation already allows at any time). New rows (joins) are covered by quantifying over all initial tables; within a "
+            "the health checker is not modelled and in the N-node composition a timed-out request is a drop step (they only change table states / drop requests, which the "
+            "step relation already allows at any time); the per-peer timeout IS modelled at the node level (broadcastLoop / sendResult, "
+            "connection set-up idealised to 0 ms) and exercised with real slow peers (2 corpus cases, ~5 s of real time each, since the "
+            "production code offers no way to shorten the literal 5 s). New rows (joins) are covered by quantifying over all initial tables; within a "
             "run only row states change. The asynchronous 'go OnPurge' is awaited by wrapping the registered hook.",
     "technique": "Lean 4 proof (invariants over an N-node transition system, induction over step sequences) + per-node-step "
                  "model/implementation correspondence + model-free oracle",
@@ -43,6 +49,7 @@ REQUIRED = [
     "C29_hops_one", "C29_prefix_storm_example",
     "C29_no_rebroadcast_routed", "C29_no_accept_refused", "C29_unpatched_incomplete_counterexample",
     "C29_tags_faithful",
+    "C29_send_outcomes_isolated", "C29_slow_peer_isolated", "C29_broadcast_time_bounded",
 ]
 
 
@@ -139,7 +146,9 @@ def run(ctx):
         "evaluations": len(cases),
         "distinct_nontrivial": c.get("distinct_nontrivial", 0),
         "rule": "purge/purgeall lines: a real Purge/PurgeLocal/PurgeAll on the node over a random table (0-9 rows: own row, "
-                "active / inactive / removed / mis-spelled states, 4 look-alike cluster names, peers answering 200/500/401/hang-up/dead, "
+                "active / inactive / removed / mis-spelled states, 4 look-alike cluster names, peers answering 200/500/401/hang-up/dead, and in 2 corpus cases (+2 random "
+                "ones in the thorough tier) peers that HOLD the request - one beyond the sender's 5 s timeout, or three for 1.75 s each - "
+                "before healthy peers in join order, "
                 "random join order, state flips between purges) and configuration (standalone, no DB, no hook, caches off); "
                 "non-trivial = at least one peer must and at least one row must not receive a request. flush lines: every request "
                 "recorded by the peers replayed into FlushCacheHandler, plus generated requests (9 token kinds x 9 body classes x hop "
